@@ -564,6 +564,7 @@ def normalise(tree: ast.Module, path: str) -> Tuple[ast.Module, List[str]]:
     try:
         out = inl.run()
         _sink_raises(out, inl.log, path)
+        _unroll_table_loops(out, inl.log, path)
         _propagate_new_locals(out, inl.log, path)
         _mirror_locals(out, inl.log, path)
         return out, inl.log
@@ -855,6 +856,173 @@ def _mirror_locals(tree: ast.Module, log: List[str], path: str) -> None:
             _Drop().visit(fn)
             cfg = None
             log.append(f'{path}:{ds[0].lineno} new local `{name}` of {qual} mirrors `{ast.unparse(v0)}` and is read through')
+
+    def rec(node, prefix):
+        for st in node.body:
+            if isinstance(st, ast.FunctionDef):
+                do(st, f'{prefix}{st.name}')
+            elif isinstance(st, ast.ClassDef):
+                rec(st, f'{prefix}{st.name}.')
+    rec(tree, '')
+    ast.fix_missing_locations(tree)
+
+
+# --------------------------------------------------------------------------------------
+# a new loop over a literal table of the module is written out row by row
+# --------------------------------------------------------------------------------------
+
+MAX_TABLE_ROWS = 40
+
+
+def _unroll_table_loops(tree: ast.Module, log: List[str], path: str) -> None:
+    """In a function of the pinned inventory, a `for` whose targets are locals the pinned function does not have and whose
+    iterable is a literal tuple / list (written in place, or bound once at module level and never touched) of rows made of
+    constants, names, attribute chains and operator.attrgetter / itemgetter calls on constants, is replaced by its body
+    once per row with the row's entries substituted for the targets; then `setattr(x, 'name', v)` statements become
+    `x.name = v`, `getattr(x, 'name')` becomes `x.name` and `attrgetter('a.b')(x)` becomes `x.a.b`.  Table-driven
+    initialisation then reads as the assignments it performs."""
+    mod_assigns: Dict[str, List[ast.AST]] = {}
+    for st in tree.body:
+        if isinstance(st, ast.Assign):
+            for t in st.targets:
+                for x in ast.walk(t):
+                    if isinstance(x, ast.Name):
+                        mod_assigns.setdefault(x.id, []).append(st.value if t is st.targets[0] and isinstance(t, ast.Name) else None)
+        elif isinstance(st, (ast.AnnAssign, ast.AugAssign)) and isinstance(st.target, ast.Name):
+            mod_assigns.setdefault(st.target.id, []).append(st.value if isinstance(st, ast.AnnAssign) else None)
+    touched_globals = set()
+    for x in ast.walk(tree):
+        if isinstance(x, (ast.Global,)):
+            touched_globals |= set(x.names)
+    from_operator = set()
+    for st in tree.body:
+        if isinstance(st, ast.ImportFrom) and st.module == 'operator':
+            from_operator |= {a.asname or a.name for a in st.names if a.name in ('attrgetter', 'itemgetter')}
+
+    def entry_ok(e) -> bool:
+        if isinstance(e, ast.Constant):
+            return True
+        if isinstance(e, ast.Name):
+            return isinstance(e.ctx, ast.Load)
+        if isinstance(e, ast.Attribute):
+            return entry_ok(e.value)
+        if isinstance(e, ast.Call) and isinstance(e.func, ast.Name) and e.func.id in from_operator and not e.keywords \
+                and len(e.args) == 1 and isinstance(e.args[0], ast.Constant):
+            return True
+        if isinstance(e, ast.UnaryOp) and isinstance(e.operand, ast.Constant):
+            return True
+        return False
+
+    def table_of(it) -> Optional[List[ast.AST]]:
+        if isinstance(it, ast.Name):
+            vals = mod_assigns.get(it.id)
+            if not vals or len(vals) != 1 or vals[0] is None or it.id in touched_globals:
+                return None
+            # never stored into / mutated by name anywhere in the module
+            for x in ast.walk(tree):
+                if isinstance(x, ast.Attribute) and isinstance(x.value, ast.Name) and x.value.id == it.id and \
+                        x.attr in ('append', 'extend', 'insert', 'pop', 'remove', 'sort', 'reverse', 'clear'):
+                    return None
+                if isinstance(x, ast.Subscript) and isinstance(x.value, ast.Name) and x.value.id == it.id and \
+                        isinstance(x.ctx, (ast.Store, ast.Del)):
+                    return None
+            it = vals[0]
+        if isinstance(it, (ast.Tuple, ast.List)) and 0 < len(it.elts) <= MAX_TABLE_ROWS and \
+                not any(isinstance(r, ast.Starred) for r in it.elts):
+            return list(it.elts)
+        return None
+
+    class _Peephole(ast.NodeTransformer):
+        def visit_Expr(self, node):
+            self.generic_visit(node)
+            c = node.value
+            if isinstance(c, ast.Call) and isinstance(c.func, ast.Name) and c.func.id == 'setattr' and len(c.args) == 3 \
+                    and not c.keywords and isinstance(c.args[1], ast.Constant) and isinstance(c.args[1].value, str) \
+                    and c.args[1].value.isidentifier() and not c.args[1].value.startswith('__'):
+                tgt = ast.Attribute(value=c.args[0], attr=c.args[1].value, ctx=ast.Store())
+                return ast.copy_location(ast.Assign(targets=[tgt], value=c.args[2]), node)
+            return node
+
+        def visit_Call(self, node):
+            self.generic_visit(node)
+            f = node.func
+            if isinstance(f, ast.Name) and f.id == 'getattr' and len(node.args) == 2 and not node.keywords \
+                    and isinstance(node.args[1], ast.Constant) and isinstance(node.args[1].value, str) \
+                    and node.args[1].value.isidentifier() and not node.args[1].value.startswith('__'):
+                return ast.copy_location(ast.Attribute(value=node.args[0], attr=node.args[1].value, ctx=ast.Load()), node)
+            if isinstance(f, ast.Call) and isinstance(f.func, ast.Name) and f.func.id in from_operator and len(f.args) == 1 \
+                    and isinstance(f.args[0], ast.Constant) and len(node.args) == 1 and not node.keywords and not f.keywords:
+                key = f.args[0].value
+                if f.func.id.endswith('attrgetter') and isinstance(key, str) and all(p.isidentifier() for p in key.split('.')):
+                    out = node.args[0]
+                    for part in key.split('.'):
+                        out = ast.Attribute(value=out, attr=part, ctx=ast.Load())
+                    return ast.copy_location(out, node)
+                if f.func.id.endswith('itemgetter'):
+                    return ast.copy_location(ast.Subscript(value=node.args[0], slice=f.args[0], ctx=ast.Load()), node)
+            return node
+
+    def do(fn: ast.FunctionDef, qual: str):
+        known = KNOWN_LOCALS.get(f'{path}::{qual}')
+        if known is None:
+            return
+
+        def expand(stmts: List[ast.stmt]) -> List[ast.stmt]:
+            out: List[ast.stmt] = []
+            for st in stmts:
+                for fld in ('body', 'orelse', 'finalbody'):
+                    sub = getattr(st, fld, None)
+                    if isinstance(sub, list) and sub and isinstance(sub[0], ast.stmt) and not isinstance(st, (ast.FunctionDef, ast.ClassDef)):
+                        setattr(st, fld, expand(sub))
+                if isinstance(st, ast.Try):
+                    for hd in st.handlers:
+                        hd.body = expand(hd.body)
+                if not isinstance(st, ast.For) or st.orelse:
+                    out.append(st)
+                    continue
+                tnames = [x.id for x in ast.walk(st.target) if isinstance(x, ast.Name)]
+                rows = table_of(st.iter)
+                body_nodes = [x for b in st.body for x in ast.walk(b)]
+                if rows is None or not tnames or any(t in known for t in tnames) \
+                        or any(isinstance(x, (ast.Break, ast.Continue, ast.FunctionDef, ast.Lambda, ast.ClassDef)) for x in body_nodes) \
+                        or any(isinstance(x, ast.Name) and x.id in tnames and isinstance(x.ctx, (ast.Store, ast.Del)) for x in body_nodes) \
+                        or any(isinstance(x, ast.Name) and x.id in tnames for later in stmts[stmts.index(st) + 1:] for x in ast.walk(later)):
+                    out.append(st)
+                    continue
+                # shape of the target against each row
+                flat: List[Dict[str, ast.AST]] = []
+                ok = True
+                for r in rows:
+                    m: Dict[str, ast.AST] = {}
+                    if isinstance(st.target, ast.Name):
+                        if not entry_ok(r) and not (isinstance(r, (ast.Tuple, ast.List)) and all(entry_ok(e) for e in r.elts)):
+                            ok = False
+                        m[st.target.id] = r
+                    elif isinstance(st.target, (ast.Tuple, ast.List)) and isinstance(r, (ast.Tuple, ast.List)) \
+                            and len(r.elts) == len(st.target.elts) and all(isinstance(t, ast.Name) for t in st.target.elts) \
+                            and all(entry_ok(e) for e in r.elts):
+                        for t, e in zip(st.target.elts, r.elts):
+                            m[t.id] = e
+                    else:
+                        ok = False
+                    if not ok:
+                        break
+                    flat.append(m)
+                if not ok:
+                    out.append(st)
+                    continue
+                for m in flat:
+                    class _Sub(ast.NodeTransformer):
+                        def visit_Name(self, n):
+                            if n.id in m and isinstance(n.ctx, ast.Load):
+                                return ast.copy_location(copy.deepcopy(m[n.id]), n)
+                            return n
+                    for b in st.body:
+                        nb = _Peephole().visit(_Sub().visit(copy.deepcopy(b)))
+                        out.append(nb)
+                log.append(f'{path}:{st.lineno} loop of {qual} over a literal table of {len(rows)} rows written out')
+            return out
+        fn.body = expand(fn.body)
 
     def rec(node, prefix):
         for st in node.body:
